@@ -173,8 +173,20 @@ def run(ctx: Ctx):
             eval_methods[nm] = g
             ctx.seen(g)
     rets = [n for n in walk_no_nested(call.node) if isinstance(n, ast.Return)]
+    def _same_array(a: ast.AST, p: str) -> bool:
+        """the parameter itself, or a value-preserving conversion of it (asarray & co., float64 at most; the
+        dtype itself is judged by RP.1)"""
+        if isinstance(a, ast.Name):
+            if a.id == p:
+                return True
+            defs = [s_ for s_ in call.node.body if isinstance(s_, ast.Assign) and isinstance(s_.targets[0], ast.Name) and s_.targets[0].id == a.id]
+            return len(defs) == 1 and _same_array(defs[0].value, p)
+        if isinstance(a, ast.Call) and call_name(a) in ("asarray", "ascontiguousarray", "asanyarray", "array", "asfarray") and a.args:
+            return _same_array(a.args[0], p)
+        return False
+    cparams = [p for p in call.params if p != "self"]
     okc = len(rets) == 1 and isinstance(rets[0].value, ast.Call) and attr_chain(rets[0].value.func) == "self._meth_to_call" \
-        and [norm(a) for a in rets[0].value.args] == [p for p in call.params if p != "self"]
+        and len(rets[0].value.args) == 1 and len(cparams) == 1 and _same_array(rets[0].value.args[0], cparams[0])
     ctx.ob("R8.1", call, rets[0] if rets else "__call__", okc,
            "a call evaluates the selected method on the array it is given", node=rets[0] if rets else call.node)
 
